@@ -334,6 +334,12 @@ func ruleContainerWrites(w *World, r *Report, e *Engine, rule string, include fu
 				nWrites++
 				construct := kind + " " + w.srcOrDescribe(aud, in, base)
 				ok, why := f.fresh(base, 0)
+				if ok {
+					if handed := handedOutInLoop(in, base); handed != nil {
+						ok = false
+						why = "the storage is allocated outside the loop but passed to " + describeCallInstr(e, handed) + " inside it and written again on the next iteration: the value handed out earlier changes"
+					}
+				}
 				switch {
 				case ok:
 					r.ok(rule, fn, construct, instrPos(in), why)
@@ -499,3 +505,58 @@ func fmtInt(i int) string {
 }
 
 func init() { register("C02", checkC02) }
+
+
+// handedOutInLoop: the write is inside a loop, its base storage is defined outside that loop, and the
+// same storage is passed to a (non-builtin) call inside the loop. Returns that call.
+func handedOutInLoop(write ssa.Instruction, base ssa.Value) ssa.CallInstruction {
+	fn := write.Parent()
+	root := storageRoot(base)
+	if root == nil {
+		return nil
+	}
+	rootInstr, ok := root.(ssa.Instruction)
+	if !ok {
+		return nil
+	}
+	for _, l := range naturalLoops(fn) {
+		blocks := loopBlocks(l)
+		if !blocks[write.Block()] || blocks[rootInstr.Block()] {
+			continue
+		}
+		for b := range blocks {
+			for _, in := range b.Instrs {
+				ci, ok := in.(ssa.CallInstruction)
+				if !ok {
+					continue
+				}
+				if _, isB := ci.Common().Value.(*ssa.Builtin); isB {
+					continue
+				}
+				for _, a := range ci.Common().Args {
+					if storageRoot(a) == root {
+						return ci
+					}
+				}
+			}
+		}
+	}
+	return nil
+}
+
+// storageRoot: the allocation a slice value views (slice literal array, make), through reslices and phis of one root.
+func storageRoot(v ssa.Value) ssa.Value {
+	for depth := 0; depth < 8; depth++ {
+		switch x := v.(type) {
+		case *ssa.Slice:
+			v = x.X
+		case *ssa.Alloc, *ssa.MakeSlice, *ssa.MakeMap:
+			return x
+		case *ssa.MakeInterface:
+			v = x.X
+		default:
+			return nil
+		}
+	}
+	return nil
+}
